@@ -121,6 +121,11 @@ Section WithValidators.
   (* JSONField.update(lab, kw): a new instance with lab's attributes, then _set_fields *)
   Definition update (c : jclass) (o : obj) (kw : obj) : res obj := set_fields c false kw o.
 
+  (* update() gives the new instance its own copies of list-valued fields (2623e10): what the original looks like
+     after `marker` was appended in place to every list-valued field of the RESULT -- unchanged.  (A pure model has no
+     aliasing; the definition only names the observable that the field stream re-reads from the implementation.) *)
+  Definition orig_after_result_lists_grow (o kw : obj) (marker : json) : obj := o.
+
   (* the JSON-value half of from_json: keys that are not fields of a fresh instance are skipped BEFORE
      _set_fields looks at their values (a836d08); then cls()._set_fields(forgiving=True, known) *)
   Definition of_dict (c : jclass) (d : obj) : res obj := set_fields c true d (defaults c).
